@@ -45,7 +45,7 @@ func init() {
 			}
 			return 4
 		},
-		Cases:       func(r *obs.Run) int { return r.Share(r.Pick(24000, 600000)) },
+		Cases:       func(r *obs.Run) int { return r.Share(r.Pick(60000, 600000)) },
 		Setup:       c03Setup,
 		Case:        c03Case,
 		MinDistinct: func(t string) int { return 10000 },
@@ -123,6 +123,11 @@ type c03Outcome struct {
 func c03Drive(r *obs.Run, kind string, data []byte, origin string) c03Outcome {
 	var out c03Outcome
 	src := newSrc(r.Rng, data)
+	if len(data) > 0 && !strings.HasPrefix(origin, "catalogue") && r.Rng.Intn(6) == 0 { // the underlying reader fails part-way instead of reaching its end
+		src.failing, src.failAt = true, r.Rng.Intn(len(data)+1)
+		origin += fmt.Sprintf(" (source fails after %d bytes)", src.failAt)
+		r.Count("failing_sources", 1)
+	}
 	c03Src.Store(src)
 	var read func() (interface{}, error)
 	switch kind {
